@@ -98,11 +98,15 @@ func (c *content) buildWorld(world map[string]map[string]string, feat, lay, file
 	n := simreg.NewNet()
 	hosts := map[string]*simreg.Host{}
 	f := simreg.DefaultFeatures()
+	feat = strings.TrimSuffix(feat, "+c1")
 	if feat == "min" { // a registry without the optional conveniences
 		f.TagDelete = false
 		f.Mount = false
 		f.AnonBlobPOSTPut = false
 		f.PageSize = 1
+	}
+	if feat == "nohd" { // a registry that does not send Docker-Content-Digest (regclient falls back from HEAD to GET)
+		f.HeadDigest = false
 	}
 	for short, name := range hostName {
 		hosts[short] = n.AddHost(name, f)
@@ -232,6 +236,11 @@ type worker struct {
 	served   atomic.Int64
 	tmu      sync.Mutex
 	times    map[int]time.Time // simreg request sequence number -> time it had been served
+	// round 5: features / faults of the registries realised in front of the model network (reset by
+	// setNet): feat "rl-ok" | "rl-low" | "rl-rec" = RateLimit-* headers on manifest replies,
+	// "dmg" | "trunc" = the body of config blob C2 is served with wrong bytes / cut off
+	feat  string
+	nmreq atomic.Int64 // manifest requests answered in this run (rl-rec)
 }
 
 func (wk *worker) servedAt(seq int) time.Time {
@@ -278,6 +287,7 @@ func (wk *worker) setNet(n *simreg.Net) {
 		}
 		h.Unlock()
 	}
+	wk.nmreq.Store(0)
 	wk.mu.Lock()
 	wk.net = n
 	wk.mu.Unlock()
@@ -320,6 +330,41 @@ func (wk *worker) handler(name string) http.Handler {
 		defer resp.Body.Close()
 		for k, v := range resp.Header {
 			rw.Header()[k] = v
+		}
+		wk.mu.Lock()
+		feat, cont := wk.feat, wk.cont
+		wk.mu.Unlock()
+		if strings.HasPrefix(feat, "rl-") && strings.Contains(r.URL.Path, "/manifests/") && resp.StatusCode == http.StatusOK &&
+			(r.Method == http.MethodHead || r.Method == http.MethodGet) {
+			// Docker Hub style pull rate limit; rl-rec: too low for the first manifest request of the run
+			remain := "50"
+			if feat == "rl-low" || (feat == "rl-rec" && wk.nmreq.Add(1) <= 1) {
+				remain = "0"
+			}
+			rw.Header().Set("RateLimit-Limit", "100;w=21600")
+			rw.Header().Set("RateLimit-Remaining", remain+";w=21600")
+		}
+		// (trunc also cuts the replies to the Range requests regclient retries with: a fault that goes
+		// away on retry makes the result depend on reghttp's backoff state, i.e. on the clock)
+		if (feat == "dmg" || feat == "trunc") && r.Method == http.MethodGet && cont != nil &&
+			(resp.StatusCode == http.StatusOK || (feat == "trunc" && resp.StatusCode == http.StatusPartialContent)) &&
+			strings.HasSuffix(r.URL.Path, "/blobs/"+cont.dig["C2"]) {
+			// the request succeeds, reading the body fails: wrong bytes of the same length (digest
+			// mismatch at the end of the body) or a body that ends in the middle (unexpected EOF)
+			b, _ := io.ReadAll(resp.Body)
+			rw.Header().Set("Content-Length", fmt.Sprint(len(b)))
+			rw.WriteHeader(resp.StatusCode)
+			if feat == "dmg" {
+				b = bytes.ReplaceAll(b, []byte("arm64"), []byte("arm46"))
+				_, _ = rw.Write(b)
+			} else {
+				_, _ = rw.Write(b[:len(b)/2])
+				if f, ok := rw.(http.Flusher); ok {
+					f.Flush()
+				}
+				panic(http.ErrAbortHandler) // closes the connection without the rest of the body
+			}
+			return
 		}
 		rw.WriteHeader(resp.StatusCode)
 		_, _ = io.Copy(rw, resp.Body)
